@@ -581,7 +581,10 @@ class SdrFruDeviceLocator(SdrCommon):
         buffer = ByteBuffer(data[5:])
         self.device_access_address = buffer.pop_unsigned_int(1) >> 1
         self.fru_device_id = buffer.pop_unsigned_int(1)
-        self.logical_physical = buffer.pop_unsigned_int(1)
+        access = buffer.pop_unsigned_int(1)
+        self.logical_physical = access >> 7
+        self.access_lun = (access >> 3) & 0x3
+        self.private_bus_id = access & 0x7
         self.channel_number = buffer.pop_unsigned_int(1) >> 4
         self.reserved = buffer.pop_unsigned_int(1)
         self.device_type = buffer.pop_unsigned_int(1)
